@@ -5,7 +5,8 @@
    (false: the pinned Append); [observe_member st k] is everything pool member k reports: topology, indices,
    materials, attribute names and all attribute values, read through its slices. *)
 From Coq Require Import List NArith ZArith Arith Lia.
-From PF Require Import Mesh.Heap Mesh.HeapProofs Mesh.HeapCommute.
+From PF Require Import Mesh.Heap Mesh.HeapProofs Mesh.HeapCommute Mesh.HeapRefine.
+From PF Require Mesh.Pure.
 Import ListNotations.
 
 (* For EVERY growth policy of append (no hypothesis on grow is needed, so in particular for every grow with
@@ -94,6 +95,57 @@ Theorem operations_are_address_independent : forall e n grow fixed H p o, 1 < n 
 Proof. intros. apply exec_ins; auto. Qed.
 Print Assumptions operations_are_address_independent.
 
+(* ---- heap_refines_pure (DESIGN §3.3), partial: the link between C01 and C02/C03 ------------------------------------
+   [abs h m] reads the heap mesh m through its slices (what [observe] reports) and packs it as a mesh VALUE of the pure
+   model Mesh/Pure.v (the model C02/C03 prove their theorems about).  For the operations in [covered] — NewMesh,
+   EmptyMesh, SetIndices, SetMaterial, SetMaterials (a caller's slice, or another mesh's Materials()), ToPointCloud,
+   FlipTriangleWinding, ClearAttributeData, identity results — the mesh the heap operation creates, read back through
+   [abs], is the mesh the pure operation (Pure.step on the same operands read back through [abs]) computes; declared
+   errors coincide.  [mesh_wf]: every slice of an operand lies within its backing array (len <= |array|).
+   FULL statement (not proved): the same for EVERY operation of the heap model.  Missing: the operations that rebuild
+   attribute arrays (Append's attributes, Unweld, RemovedUnreferencedVertices, Weld, the filters, Crop, Slice/Split,
+   repeat), SetFloatNAttribute/SetFloatNData/CopyFloatNAttribute (sorted insertion into Pure's single attribute list)
+   and the arithmetic transformers; and that [mesh_wf] holds in every reachable state (needs grow c n >= n). *)
+Theorem heap_refines_pure_partial : forall (grow : nat -> nat -> nat) ops t o,
+  let st := run grow true ops t in
+  let p := map (load (maps_of st)) (pool st) in
+  Forall (mesh_wf (heap_of st)) p -> covered o = true ->
+  agrees (exec grow true (heap_of st) p o) (pure_exec o (map (abs (heap_of st)) p)).
+Proof. exact heap_refines_pure_history_proof. Qed.
+Print Assumptions heap_refines_pure_partial.
+
+(* the same for an arbitrary heap and pool (not only reachable ones) whose slices point at existing arrays *)
+Theorem heap_refines_pure_exec_partial : forall (grow : nat -> nat -> nat) h p o,
+  pool_ok (length h) p -> Forall (mesh_wf h) p -> covered o = true ->
+  agrees (exec grow true h p o) (pure_exec o (map (abs h) p)).
+Proof. exact heap_refines_pure_partial_proof. Qed.
+Print Assumptions heap_refines_pure_exec_partial.
+
+(* Every pool member has ONE value in the pure model, for ever: [pure_value st k] = the abstraction of what member k
+   reports in state st does not depend on the time at which it is read.  (This is what makes "the pure model's mesh
+   value of a Go variable" well defined although the Go value is a bundle of pointers into shared arrays.) *)
+Theorem pure_value_stable : forall (grow : nat -> nat -> nat) ops k t t',
+  t <= t' -> k < length (pool (run grow true ops t)) ->
+  pure_value (run grow true ops t') k = pure_value (run grow true ops t) k.
+Proof. exact pure_value_stable_proof. Qed.
+Print Assumptions pure_value_stable.
+
+(* non-vacuity: after four operations (two of them uncovered attribute setters) every loaded member satisfies
+   mesh_wf; FlipTriangleWinding on member 3 gives, in the pure model, the flipped triangles over the same materials
+   and attributes; the heap operations Flip, ToPointCloud and SetMaterials(other.Materials()) agree with it *)
+Example c01_example_refine :
+  let st := run grow_double true refine_ops 4 in
+  let p := map (load (maps_of st)) (pool st) in
+  forallb (mesh_wfb (heap_of st)) p = true /\
+  length p = 4 /\
+  pure_exec (OFlip 3) (map (abs (heap_of st)) p) =
+    Pure.Ok [Pure.Mesh Pure.Triangle [1; 0; 2; 1; 2; 3] [(1, 7%N); (1, 8%N)]
+               [((3%N, 6%N), [[0;0;0]; [4;0;0]; [0;4;0]; [4;4;0]]%Z); ((2%N, 8%N), [[0;0]; [1;0]; [0;1]; [1;1]]%Z)]] /\
+  agrees (exec grow_double true (heap_of st) p (OFlip 3)) (pure_exec (OFlip 3) (map (abs (heap_of st)) p)) /\
+  agrees (exec grow_double true (heap_of st) p (OToPoints 3)) (pure_exec (OToPoints 3) (map (abs (heap_of st)) p)) /\
+  agrees (exec grow_double true (heap_of st) p (OShareMats 1 3)) (pure_exec (OShareMats 1 3) (map (abs (heap_of st)) p)).
+Proof. exact refine_example. Qed.
+
 (* the direct oracle used on the implementation's snapshots means what it says *)
 Theorem immutableb_sound : forall (segs : list (list (nat * obs))),
   immutableb segs = true <-> forall sg, In sg segs -> exists x, sg = [x].
@@ -172,6 +224,30 @@ Example c01_example_hollow :
   observe_member (run grow_double true ops 12) 7 = observe_member (run grow_double true ops 8) 7 /\
   option_map o_idx (observe_member (run grow_double true ops 12) 4) = Some [[4]; [5]; [6]]%Z /\
   option_map o_idx (observe_member (run grow_double true ops 12) 11) = Some [[7]; [8]; [9]]%Z.
+Proof.
+  cbv zeta.
+  do 5 (split; [vm_compute; reflexivity|]).
+  vm_compute; reflexivity.
+Qed.
+
+(* non-vacuity for the round-4 operations: a point cloud assembled by NewPointCloud (OBuild), a quad primitive, a mesh
+   that adopts another mesh's material slice through Materials() (OShareMats) and an Append onto it; the donor of the
+   material slice (member 2) and the adopter (3) report at the end what they reported when made *)
+Definition c01_example_build_ops : list op :=
+  [OBuild Point [[0]; [1]; [2]]%Z [[3; 4]]%Z [] [] [(6%N, [[0;0;0]; [1;0;0]; [0;1;0]]%Z)] [(2%N, [[1;1;1;1]; [2;2;2;2]; [3;3;3;3]]%Z)];
+   OBuild Triangle [[0]; [1]; [2]; [2]; [3]; [0]]%Z [] [] [] [(5%N, [[0;1;0]; [0;1;0]; [0;1;0]; [0;1;0]]%Z); (6%N, [[-1;0;-1]; [-1;0;1]; [1;0;1]; [1;0;-1]]%Z)] [];
+   OSetMaterials 1 [[1; 7]; [0; 8]; [1; 9]]%Z 2;        (* 2 *)
+   OShareMats 1 2;                                        (* 3: shares 2's material array *)
+   OAppend 3 2; OAppend 3 1; OToPoints 3; OAppend 0 0].   (* 4, 5, 6, 7 *)
+
+Example c01_example_build :
+  let ops := c01_example_build_ops in
+  length (pool (run grow_double true ops 8)) = 8 /\
+  observe_member (run grow_double true ops 8) 2 = observe_member (run grow_double true ops 3) 2 /\
+  observe_member (run grow_double true ops 8) 3 = observe_member (run grow_double true ops 4) 3 /\
+  option_map o_mats (observe_member (run grow_double true ops 8) 3) = Some [[1; 7]; [0; 8]; [1; 9]]%Z /\
+  option_map (fun o => length (o_mats o)) (observe_member (run grow_double true ops 8) 4) = Some 6 /\
+  option_map (fun o => length (o_idx o)) (observe_member (run grow_double true ops 8) 7) = Some 6.
 Proof.
   cbv zeta.
   do 5 (split; [vm_compute; reflexivity|]).
